@@ -199,15 +199,20 @@ def run(chk, tier, seed, replay):
         want = json.load(open(replay))["key"]
         cases = {k: v for k, v in cases.items() if k == want}
     chk.cov["exhaustive"] = not replay
-    share = 4 if tier == "quick" else 1
+    # the compiled share: all Pointer / transparent cases + a seeded share of the rest, capped at about 40 000 types
+    share = 4 if tier == "quick" else max(1, len(cases) // 30000)
     mods, decls = [], {}
     for k, c in cases.items():
         has_ptr = any(p["k"] == "ph" and p["tr"] == "Pointer" for p in c["lit"])
-        if not replay and share > 1 and not has_ptr and not c["transparent"] and vlib.seeded_pick(k, seed, share) != 0:
+        if not replay and share > 1 and not c["transparent"] and vlib.seeded_pick(k, seed, share if not has_ptr else max(1, share // 4)) != 0:
             continue
         m, d = render(c, k, vlib.seeded_pick(k, 7, 27))
         mods.append((k, m))
         decls[k] = d
+    cap = 12000 if tier == "quick" else 24000     # rustc's memory grows with the crate: keep the compiled set bounded
+    if len(mods) > cap:
+        mods = sorted(mods, key=lambda m: vlib.seeded_pick(m[0], seed + 17, 1 << 30))[:cap]
+        chk.notes["compiled_cap"] = cap
     if not replay:
         imp = implicit_cases()
         mods += imp
